@@ -8,10 +8,10 @@ from harness.props import C02 as c02
 from harness.props import xmicommon as xc
 
 ID = "C16"
-COQ_TARGETS = ["JsonDoc.vo", "Json.vo", "JsonProofs.vo", "JsonProofs2.vo", "JsonLoadProofs.vo", "JsonLex.vo", "CorrC02.vo", "Convert.vo", "ConvertProofs.vo", "CorrC16.vo",
-               "Props/C16.vo"]
+COQ_TARGETS = ["JsonDoc.vo", "Json.vo", "JsonProofs.vo", "JsonProofs2.vo", "JsonLoadProofs.vo", "JsonLex.vo", "CorrC02.vo", "Convert.vo", "ConvertWf.vo",
+               "ConvertReach.vo", "ConvertInline.vo", "ConvertProofs.vo", "CorrC16.vo", "Props/C16.vo"]
 PROPS_FILE = "Props/C16.v"
-CORR_IMPORTS = "Base Heap Schema Canon Lex JsonDoc Json XmiDoc Convert CorrC16"
+CORR_IMPORTS = "Base Heap Schema Canon Lex JsonDoc Json XmiDoc Convert ConvertWf CorrC16"
 OPEN_SCOPES = ["string_scope", "list_scope", "Z_scope"]
 SHARD_BYTES = 180_000
 CASES_PER_SHARD = 12
@@ -31,8 +31,10 @@ TRUSTED = [
     "Coq 8.16.1 kernel and vm_compute; Print Assumptions of every theorem in Props/C16.v: closed under the global context",
     "hand-written models: coq/JsonDoc.v + Json.v (JSON side, C02), coq/XmiDoc.v + Xmi.v (XMI side, owned by C01/C04/C05), "
     "coq/Convert.v (inline_of: the XMI view of canonical content computed from the JSON view)",
-    "the relation between the two canonical views of one CAS (inline_outline) is a premise of the conversion theorems; it "
-    "is evaluated inside Coq on all four CASes of every case",
+    "the relation between the two canonical views of one CAS (inline_outline) is a theorem (C16_inline_outline, premise "
+    "ConvertWf.wf_convb: a boolean on schema and CAS, evaluated on the scenario CAS of every case); it is additionally "
+    "evaluated inside Coq on the observed views of all four CASes of every case and on the model's own two views of the "
+    "scenario CAS, which are compared with the views observed of the CAS loaded from JSON",
     "lexical layer: stdlib json / xml.etree as text <-> abstract document (harness/jsonabs.py, harness/xmlabs.py); float "
     "literals of XMI documents through the scenario's lexeme table (tested by the oracle: float_contract)",
     "harness/scen.py builders and identity-based canonical observation in both views",
@@ -176,7 +178,7 @@ def render(sc, obs):
     schema = c02.schema2(cassis, sc["tspec"], sc["da_feats"])
     names = [t["name"] for t in sc["tspec"]] + ([c02.DA] if sc["da_feats"] else [])
     g = scen.g_ccas
-    t = (f"mkCase {scen.g_schema(schema, names)} {xc.g_ftab(sc['cspec'])}\n ({xmlabs.g_xdoc(obs['a_xmi'])})\n ({g(obs['a1_json'])}) "
+    t = (f"mkCase {scen.g_schema(schema, names)} {xc.g_ftab(sc['cspec'])}\n ({c02.g_cas(sc)})\n ({xmlabs.g_xdoc(obs['a_xmi'])})\n ({g(obs['a1_json'])}) "
          f"({g(obs['a1_xmi'])})\n ({J.gallina(obs['a_doc'])})\n ({g(obs['a2_json'])}) ({g(obs['a2_xmi'])})\n "
          f"({J.gallina(obs['b_doc'])})\n ({g(obs['b1_json'])}) ({g(obs['b1_xmi'])})\n ({xmlabs.g_xdoc(obs['b_xmi'])})\n "
          f"({g(obs['b2_json'])}) ({g(obs['b2_xmi'])})")
@@ -226,8 +228,10 @@ MANIFEST = {
                   "C02 / C01-C04) with the relation between the two canonical views (inline_of); the models are tied to "
                   "/repo on every run by evaluating them inside Coq on the documents and CASes of both chains as the "
                   "implementation ran them.",
-    "level_note": "The relation between the two canonical views of one CAS and the reader = denotation agreement are "
-                  "premises of the theorems, evaluated in Coq on every case; see TRUSTED.",
+    "level_note": "inline_outline (the JSON view of a well-formed CAS determines its XMI view) and both reader = denotation "
+                  "agreements are theorems; the XMI reader leg is imported from C01 (C01_xmi_roundtrip_partial: that the "
+                  "XMI reader succeeds is a hypothesis). Premises left are booleans: wf_convb / wf_rtb on the CAS "
+                  "(counted per case), doc_ok_json of the written JSON document (C02), 0 < next id.",
     "technique": "Coq proof over executable Gallina models + in-Coq behavioural correspondence + direct oracle",
     "design_ref": "DESIGN.md section 5, C16",
 }
